@@ -2,6 +2,11 @@
 
 T-gen : Gen/Constants.v (block size 100 of argmin_split/argmax_split, by ast); the theorems
         hold for every B >= 1 and are instantiated at the regenerated constant.
+T-gen : Gen/WtaFns.v (translator/gen_wta_fns.py, ast): WinnerTakesAll.to_disp, argmin_split, argmax_split and
+        extract_disparity_interval_from_cost_volume statement by statement over the numpy combinators of Lib/NpNd.v /
+        Lib/NpNd3.v; Props/C03.v re-proves at every run that the generated to_disp (its block loops = the generated
+        skeletons run by BlockSkeleton.exec) equals Model/Wta.v for ALL datasets and restates the C03 theorems on it;
+        the storage-sharing list the translator derives is compared here with np.shares_memory on the real datasets.
 T-corr: the extracted model of WinnerTakesAll.to_disp (NaN -> +-inf substitution, B x B block
         loop with running offsets, np.argmin/np.argmax first-index semantics, restoration,
         invalid_disparity, copies) against the real AbstractDisparity(**cfg).to_disp(cv) on
@@ -24,7 +29,7 @@ import xarray as xr
 
 from harness import core
 
-GEN = ["gen_constants", "gen_block_loops"]
+GEN = ["gen_constants", "gen_block_loops", "gen_wta_fns"]
 EXTRACT_FILES = ["X03"]
 DRIVERS = ["x03"]
 RULE = ("synthetic cost volumes: shape from {1,2,99,100,101,199,200,201,250} x {1,3,101} (either orientation) x 2-5 "
@@ -43,9 +48,24 @@ ASSUMES = [
     "'inside the pixel's requested interval' relies on C02's masking (costs outside the pixel interval are NaN): named "
     "hypothesis cv_masked_outside_is_nan of C03_wta_within_pixel_interval",
     "float32 storage of the disparity coordinate: sampled disparities are multiples of 1/4 (exact)",
+    "generated to_disp (Gen/WtaFns.v): the meaning of each numpy / xarray construct is the combinator of Lib/NpNd.v, "
+    "Lib/NpNd3.v, Model/WtaNp.v it is mapped to (np.isnan, a[mask] = v, np.min / np.argmin / np.argmax(axis=2) incl. "
+    "first-NaN rule and empty-axis error, a[I] with IndexError / negative wrap-around, astype(intNN) wrap-around, "
+    "np.nan_to_num rewriting +-inf to +-float32 max, xr.Dataset shape check, dataset variables as record fields); the "
+    "statements cover datasets whose cost volume has rank 3 and a NON-EMPTY disparity axis (numpy raises on an empty "
+    "one), whose sampled disparities are not NaN, with one coordinate per row / column; arrays are total functions "
+    "(dtype float32 of the map is not modelled: disparities exactly representable); self._invalid_disparity is a "
+    "parameter (how it is read from the configuration is C05's); approximate_right_disparity has no caller in "
+    "pandora/ and is not translated; img_left / img_right are unused by to_disp (any use is refused)",
 ]
 TRUSTED = ["Gen/Constants.v produced by translator/gen_constants.py (ast pattern np.array_split(x, np.arange(B, n, B), axis))",
            "Gen/BlockLoops.v produced by translator/gen_block_loops.py (ast transliteration of the double block loop: split expressions, statements on the running offsets where they stand, slice bounds, arrays resolved to np.zeros / np.full_like / np.copy / sliding_window view / parameter expression; fail closed) and its reading as a program by Lib/BlockSkeleton.v exec (total arrays, slice writes neither clamped nor shape-checked)"]
+
+TRUSTED.append("Gen/WtaFns.v produced by translator/gen_wta_fns.py (ast, statement-by-statement, fail closed; types the names, "
+               "threads the two datasets as state, tracks storage / aliasing and refuses an in-place store into storage that "
+               "something still read holds; replaces the double block loop by a hole instantiated in Coq with "
+               "BlockSkeleton.exec of the generated skeleton) and the reading of numpy / xarray in Lib/NpNd.v, Lib/NpNd3.v, "
+               "Model/WtaNp.v")
 
 BIG = [1, 2, 99, 100, 101, 199, 200, 201, 250]
 SMALL = [1, 3, 101]
@@ -322,6 +342,47 @@ def crop_check(ctx, p, arrs, out, rng):
                                              f"to_disp on the whole {nr}x{nc} volume", {"params": p, "crop": [r0, r1, c0, c1]})
 
 
+# ------------------------------------------------------------------ storage sharing (generated list vs the real datasets)
+
+
+def generated_shares():
+    """the list g_to_disp_shares of coq/Gen/WtaFns.v"""
+    import re  # pylint: disable=import-outside-toplevel
+    path = os.path.join(core.COQ, "Gen", "WtaFns.v")
+    try:
+        text = open(path).read()
+    except OSError:
+        return None
+    m = re.search(r"Definition g_to_disp_shares : list share :=\s*\[(.*?)\]\.", text, re.S)
+    if not m:
+        return None
+    return sorted(set(re.findall(r'\("([^"]*)"%string, "([^"]*)"%string\)', m.group(1))))
+
+
+def impl_shares(cv, out):
+    """pairs (variable of disp_map, variable of cv) whose arrays share memory after the real to_disp"""
+    pairs = []
+    cvv = {k: cv[k].data for k in cv.data_vars}
+    cvv["coord:disp"] = cv.coords["disp"].data
+    for a in out.data_vars:
+        for b, arr in cvv.items():
+            if np.shares_memory(out[a].data, arr):
+                pairs.append((a, b))
+    if out.attrs is cv.attrs:
+        pairs.append(("attrs", "attrs"))
+    return sorted(pairs)
+
+
+def shares_check(ctx, p, cv, out, gen):
+    if gen is None:
+        return
+    want = [x for x in gen if "confidence_measure" in cv.data_vars or "confidence_measure" not in x]
+    got = impl_shares(cv, out)
+    ctx.count("storage_sharing_checked")
+    if got != want:
+        ctx.mismatch("to_disp_storage_sharing", {"params": p}, {"shares_memory": got}, {"g_to_disp_shares": want})
+
+
 # ------------------------------------------------------------------ main
 
 
@@ -350,6 +411,9 @@ def run(ctx):
                     q.update({"nr": a, "nc": b, "nd": 2, "interval": False})
                     cases.append(q)
     ctx.stats["shapes"] = {}
+    gen_sh = generated_shares()
+    if gen_sh is None:
+        ctx.broken_obligation("gen_wta_fns:g_to_disp_shares", "coq/Gen/WtaFns.v or its list g_to_disp_shares is missing")
     batch = []
     CH = 12
     for start in range(0, len(cases), CH):
@@ -432,6 +496,8 @@ def run(ctx):
                                                       f"for costs {flat[j].tolist()}", {"params": p, "pixel": [r, c]})
             # spec check 2: independent oracle of the whole property sentence
             oracle_check(ctx, p, arrs, cv, out)
+            # the storage the translator says is shared / fresh, on the real datasets
+            shares_check(ctx, p, cv, out, gen_sh)
             # spec check 3: crop metamorphic
             if not p["inf"] and (rng.random() < (0.5 if quick else 0.3)):
                 crop_check(ctx, p, arrs, out, rng)
@@ -440,4 +506,12 @@ def run(ctx):
                            "skeleton_wf Gen.BlockLoops.argmin_split = true /\\ skeleton_wf Gen.BlockLoops.argmax_split = true /\\ "
                            "wta_skeleton_ok false/true (offsets from 0, np.zeros output, arg-min/arg-max of the inner chunk) /\\ "
                            "sk_B = Gen.Constants.wta_argmin_block / wta_argmax_block (C03_block_loop_skeleton, vm_compute on the "
-                           "skeleton translator/gen_block_loops.py reads in disparity.py with ast; fail closed)"]
+                           "skeleton translator/gen_block_loops.py reads in disparity.py with ast; fail closed)",
+                           "generated to_disp = model: for every cost volume dataset (cv_rep), code_to_disp = g_to_disp over "
+                           "skel_block_loop3 of the generated skeletons gives the model's disparity map, cost volume afterwards "
+                           "and disp_indices, no numpy / xarray error, bands / flags / attrs / coords the same arrays "
+                           "(C03_gen_to_disp_is_model; Gen/WtaFns.v regenerated by translator/gen_wta_fns.py, ast, fail closed); "
+                           "C03_gen_wta_eq_spec / _invalid_when_no_cost / _cv_unchanged / _carries_flags_and_bands / "
+                           "_block_independent restate C03 on the generated function",
+                           "forallb (fresh_in Gen.WtaFns.g_to_disp_shares) [disparity_map; validity_mask; disparity_interval] = true "
+                           "(C03_gen_result_storage_fresh, vm_compute on the storage-sharing list the translator derives)"]
